@@ -328,7 +328,21 @@ def main(tier, seed):
     run = Run("C05", tier, seed, "exploration")
     nh, nev = (10, 30) if tier == "quick" else (160, 80)
     jobs = [{"seed": seed, "wseed": i, "regime": ["B", "J", "B", "H"][i % 4], "nhist": nh, "nev": nev} for i in range(NCPU)]
+    # the real world in parallel (real asyncio loop, real UDP on 127.0.0.1, simulator on its engine thread)
+    import threading
+
+    real = {}
+
+    def real_part():
+        real["res"] = run_shards("checks.c05_real", "shard_real", [{"tier": tier, "seed": seed, "pairs": 6}], timeout=3000, workers=1)
+
+    th = threading.Thread(target=real_part)
+    th.start()
     run.absorb(run_shards("checks.c05", "shard_async", jobs, timeout=3000))
+    th.join()
+    run.absorb(real["res"])
+    if not run.counters.get("real_world_unavailable"):
+        run.need(run.counters.get("real_histories_matched", 0) >= 20 and run.counters.get("real_acks_ok", 0) >= 50, "the real-UDP part observed too few histories / acknowledgements")
     try:
         from checks import c05_threaded
 
@@ -345,7 +359,7 @@ def main(tier, seed):
     run.need("0" in run.sets.get("statp_sizes", set()), "no zero-change partial update sent")
     run.need(run.counters.get("statp_with_restoring_record", 0) > 20, "no partial update with a record restoring the previous value")
     return run.finish(
-        rule="histories of partial updates (0..12 changes of unique 2-byte values, repeated positions, the simulator's own 1-byte do_set form), silent spa-side changes and refreshes over the same positions; serial histories are compared after every event, burst histories (updates overlapping a refresh in time) after quiescence, one long-lived connection with 450+ acknowledged updates (the sequence counter wraps twice), against a reference that applies every delivered update once in processing order; one evaluation = one comparison point; distinct = distinct history prefixes",
+        rule="histories of partial updates (0..12 changes of unique 2-byte values, repeated positions, the simulator's own 1-byte do_set form), silent spa-side changes and refreshes over the same positions; serial histories are compared after every event, burst histories (updates overlapping a refresh in time) after quiescence, one long-lived connection with 450+ acknowledged updates (the sequence counter wraps twice), against a reference that applies every delivered update once in processing order; one evaluation = one comparison point; distinct = distinct history prefixes; plus the real world: 6 client/simulator pairs in one process over UDP on 127.0.0.1, serial and burst histories of partial updates (0..250 records, verbatim repeats, the 1-byte form), block equality at quiescence and one well-formed STATQ per STATP at the spa's OS socket",
         assumptions=["fault-free network (loss is C01's subject)", "a refresh carries the spa content sampled when the simulator dispatched the STATU", "positions inside the block (a 2-byte change at byte 1023 would grow the block - outside the statement as read)"],
     )
 
